@@ -12,6 +12,7 @@ import re
 from sa.interp import Interp, Scenario, Sym, Const, Bytes, render, render_items, merge_consts
 from sa.loader import AnalysisError, dotted
 from sa import taint
+from sa import families
 
 noinline = lambda f: False  # noqa: E731
 
@@ -26,6 +27,7 @@ def run(rep, prog, tier):
     rep.assume('os.urandom and the cryptography key generators return fresh, independent values on every call')
 
     check_sources(rep, prog)
+    families.check_cipher_tables(rep, prog, 'C13.1')
     check_session_key(rep, prog)
     check_skesk_salt(rep, prog)
     check_seipd_prefix(rep, prog)
